@@ -403,7 +403,7 @@ fn gen_table(r: &mut Lcg, depth: u32, tok: &mut u32) -> String {
     let cols = 1 + r.below(3) as usize;
     let mut s = String::from("<table>");
     let mut col_has_single = vec![false; cols];
-    let mut col_needs = vec![false; cols];     // spanned by a multi-column cell
+    let mut col_needs = vec![false; cols];     // spanned by an EMPTY multi-column cell
     let mut body = vec![];
     for _ in 0..rows {
         let mut row = vec![];
@@ -415,14 +415,15 @@ fn gen_table(r: &mut Lcg, depth: u32, tok: &mut u32) -> String {
                 if CELLS[k].is_empty() { String::new() } else { *tok += 1; format!("{}{}", CELLS[k], tok) }
             };
             if span == 1 && !content.is_empty() { col_has_single[c] = true; }
-            if span > 1 { for k in c..c + span { col_needs[k] = true; } }
+            if span > 1 && content.is_empty() { for k in c..c + span { col_needs[k] = true; } }
             row.push((span, content));
             c += span;
         }
         body.push(row);
     }
-    // a column under a multi-column cell gets at least one single-span cell with content (keeps clear of the recorded findings D8
-    // and D15); other columns may be empty in every row
+    // a column under an empty multi-column cell gets at least one single-span cell with content (keeps clear of the recorded finding
+    // D15; every cell with content is at least as wide as its colspan, which keeps clear of D8); other columns may be empty in every
+    // row or be covered by spanning cells only
     for c in 0..cols { if col_needs[c] && !col_has_single[c] { *tok += 1; body.push((0..cols).map(|k| (1, if k == c { format!("f{}", tok) } else { String::new() })).collect()); col_has_single[c] = true; } }
     for row in body {
         s.push_str("<tr>");
@@ -449,7 +450,7 @@ fn columns(l: &str) -> Vec<char> {
 pub fn bnd_tables() {
     let (ntab, maxw) = if thorough() { (2500u32, 50usize) } else { (500u32, 30usize) };
     let mut rep = Report::new("bnd_tables", &format!("{} seeded regular tables (1..3 rows plus filler rows, 1..3 columns, colspan 2 tiling the grid, cells empty/short/two words/long/wide characters/two lines/many words, \
-        one level of nested tables, columns may be empty in every row unless a multi-column cell spans them), widths 1..={}; plain decorator with borders: \
+        one level of nested tables, columns may be empty in every row unless an empty multi-column cell spans them), widths 1..={}; plain decorator with borders: \
         no panic; lines within the width (C02); the non-space characters of all cells are exactly the non-border characters of the output (C03, C06); \
         side-by-side layout: equal line widths, first and last line are rules, every rule character matches the bars directly above and below it (C05)", ntab, maxw));
     let mut r = Lcg(0x9e3779b97f4a7c15 ^ seed());
@@ -548,9 +549,12 @@ pub fn bnd_c14() {
         ("<div id=\"w\"><table><tr><td>ta</td></tr></table></div><p id=\"z\">tb</p>", vec![("w", "ta"), ("z", "tb")]),
         ("<p id=\"long\">tahhhhhhhhhhhh tb</p><ol><li id=\"o1\">tc</li><li id=\"o2\">td</li></ol>", vec![("long", "tahhhhhhhhhhhh"), ("o1", "tc"), ("o2", "td")]),
         ("<dl><dt id=\"dt\">ta</dt><dd id=\"dd\">tb tc</dd></dl><pre id=\"pre\">td\nte</pre>", vec![("dt", "ta"), ("dd", "tb"), ("pre", "td")]),
+        ("<div>ta <ul id=\"u\"><li>tb</li></ul></div><blockquote>tc td <ol id=\"o\"><li>te</li></ol></blockquote>", vec![("u", "tb"), ("o", "1te")]),
+        ("<div>ta <span id=\"s\"><br>tb</span> tc</div><p>td <b id=\"b\">te</b></p>", vec![("s", "tb"), ("b", "te")]),
+        ("<p>ta</p> tb <h2 id=\"h\">tc</h2> td <div id=\"d\"><p>te</p></div>", vec![("h", "tc"), ("d", "te")]),
     ];
     let widths: Vec<usize> = if thorough() { (3..=40).collect() } else { vec![3, 4, 6, 10, 16, 40] };
-    let mut rep = Report::new("bnd_c14", &format!("10 documents with id attributes on p, div, li, span, h2, blockquote, a, em, table, tr, td, dt, dd, pre (elements next to tables and borders included); {} widths; \
+    let mut rep = Report::new("bnd_c14", &format!("13 documents with id attributes on p, div, li, span, h2, blockquote, a, em, b, ul, ol, table, tr, td, dt, dd, pre (elements next to tables, borders and loose inline text included); {} widths; \
         rich lines: every id yields exactly one FragmentStart, and the first text after it (reading order) starts with the first text of that element", widths.len()));
     for (html, ids) in &docs { for &w in &widths {
         let input = format!("width={} html={}", w, html);
